@@ -436,3 +436,222 @@ example : OpsOK [] [.next, .apply 1 100, .next, .next, .apply 101 100, .next] :=
   simp [OpsOK, InRanges]; omega
 
 end RNacos.Props.C19
+
+/-! ## 3b. restart from a snapshot taken earlier, plus replay of the log since
+
+History ids stay strictly increasing when a node restarts from a snapshot taken **earlier** and replays the
+committed requests since (C19, and the part of C01 that concerns the configuration history-id counter). -/
+namespace RNacos.Props.C19
+open RNacos.Sequence RNacos
+
+theorem applyMark_cache0 (m : Option Nat) (s : SimpleSeq) (h : s.cache = 0) :
+    (applyMark m s).cache = 0 ∧ s.last ≤ (applyMark m s).last ∧ (applyMark m s).batch = s.batch ∧
+      (∀ v, m = some v → v ≤ (applyMark m s).last) := by
+  cases m with
+  | none => simp [applyMark, h]
+  | some v =>
+    simp only [applyMark, SimpleSeq.setValidLastId]
+    split
+    · refine ⟨rfl, by simp; omega, rfl, ?_⟩; intro w hw; simp at hw; subst hw; simp
+    · refine ⟨h, Nat.le_refl _, rfl, ?_⟩; intro w hw; simp at hw; subst hw; omega
+
+theorem replay_fold_cache0 (ms : List (Option Nat)) (s : SimpleSeq) (h : s.cache = 0) :
+    (ms.foldl (fun st m => applyMark m st) s).cache = 0 ∧ s.last ≤ (ms.foldl (fun st m => applyMark m st) s).last ∧
+      (ms.foldl (fun st m => applyMark m st) s).batch = s.batch := by
+  induction ms generalizing s with
+  | nil => simp [h]
+  | cons m ms ih =>
+    have h1 := applyMark_cache0 m s h
+    have h2 := ih (applyMark m s) h1.1
+    simp only [List.foldl_cons]
+    exact ⟨h2.1, by omega, by rw [h2.2.2, h1.2.2.1]⟩
+
+theorem replay_props (sv : Saved) : sv.replay.cache = 0 ∧ sv.value ≤ sv.replay.last ∧ sv.replay.batch = sv.batch := by
+  have := replay_fold_cache0 sv.marks ⟨0, sv.batch, sv.value⟩ rfl
+  simpa [Saved.replay] using this
+
+theorem replay_append (sv : Saved) (m : Option Nat) :
+    ({ sv with marks := sv.marks ++ [m] } : Saved).replay = applyMark m sv.replay := by
+  simp [Saved.replay, List.foldl_append]
+
+/-- what a restart from the saved snapshot would produce is, at every moment, a state that keeps `CInv` -/
+def SInv (c : Cluster2) (top : Nat) : Prop :=
+  ∀ k sv, c.saved k = some sv →
+    top ≤ sv.replay.last ∧ (∀ a, 0 < (c.nodes a).cache → (c.nodes a).endId ≤ sv.replay.last) ∧ 1 ≤ sv.batch
+
+theorem cinv2_step (c : Cluster2) (top : Nat) (op : COp2) (h : CInv c.nodes top) (hs : SInv c top) :
+    (∀ x, (cluster2Step c op).2 = some x → top < x ∧ CInv (cluster2Step c op).1.nodes x ∧ SInv (cluster2Step c op).1 x) ∧
+    ((cluster2Step c op).2 = none → CInv (cluster2Step c op).1.nodes top ∧ SInv (cluster2Step c op).1 top) := by
+  cases op with
+  | issue i =>
+    have hstep := cinv_step c.nodes top (.issue i) h
+    refine ⟨?_, by intro hx; simp [cluster2Step, clusterStep] at hx⟩
+    intro x hx
+    have hx' : (clusterStep c.nodes (.issue i)).2 = some x := by simpa [cluster2Step] using hx
+    obtain ⟨hlt, hinv⟩ := hstep.1 x hx'
+    refine ⟨hlt, by simpa [cluster2Step] using hinv, ?_⟩
+    obtain ⟨h1, h2, h3⟩ := h
+    have hxe : x = (c.nodes i).last + 1 := by
+      simp only [clusterStep, Option.some.injEq] at hx'
+      rw [← hx']; simp only [SimpleSeq.nextState]; split <;> rfl
+    intro k sv' hsv'
+    simp only [cluster2Step] at hsv'
+    cases hk : c.saved k with
+    | none => simp [hk] at hsv'
+    | some sv =>
+      simp only [hk, Option.map_some, Option.some.injEq] at hsv'
+      subst hsv'
+      obtain ⟨p1, p2, p3⟩ := hs k sv hk
+      have hr0 := replay_props sv
+      rw [replay_append]
+      have ham := applyMark_cache0 ((c.nodes i).nextState).1.2 sv.replay hr0.1
+      by_cases hc0 : (c.nodes i).cache = 0
+      · -- a new block: the mark reaches the replayed state too
+        have hmark : ((c.nodes i).nextState).1.2 = some ((c.nodes i).last + (c.nodes i).batch) := by
+          simp [SimpleSeq.nextState, hc0]
+        have hM := ham.2.2.2 _ hmark
+        have hmono := ham.2.1
+        have hb := h3 i
+        rw [hmark] at hM hmono ⊢
+        generalize applyMark (some ((c.nodes i).last + (c.nodes i).batch)) sv.replay = R at hM hmono ⊢
+        refine ⟨by omega, ?_, p3⟩
+        intro a hca
+        simp only [cluster2Step, clusterStep, SimpleSeq.nextState, hc0, if_true, applyMark, SimpleSeq.setValidLastId,
+          SimpleSeq.endId] at hca ⊢
+        by_cases ha : a = i
+        · subst ha
+          simp only [if_true] at hca ⊢
+          have hnot : ¬ ((c.nodes a).last + 1 + ((c.nodes a).batch - 1) < (c.nodes a).last + (c.nodes a).batch) := by omega
+          simp only [hnot, if_false] at hca ⊢
+          omega
+        · simp only [ha, if_false] at hca ⊢
+          split at hca
+          · simp at hca
+          · rename_i hnl
+            simp only [hnl, if_false]
+            have := p2 a hca
+            simp only [SimpleSeq.endId] at this
+            omega
+      · -- inside the leader's block: no mark; the id is covered by the reservation, which the replayed state covers
+        have hmark : ((c.nodes i).nextState).1.2 = none := by simp [SimpleSeq.nextState, hc0]
+        have hcpos : 0 < (c.nodes i).cache := by omega
+        have hcov := p2 i hcpos
+        simp only [SimpleSeq.endId] at hcov
+        rw [hmark]
+        simp only [applyMark]
+        refine ⟨by omega, ?_, p3⟩
+        intro a hca
+        simp only [cluster2Step, clusterStep, SimpleSeq.nextState, hc0, if_false, applyMark, SimpleSeq.endId] at hca ⊢
+        by_cases ha : a = i
+        · subst ha; simp only [if_true] at hca ⊢; omega
+        · simp only [ha, if_false] at hca ⊢
+          have := p2 a hca
+          simp only [SimpleSeq.endId] at this; omega
+  | restart i =>
+    have hstep := cinv_step c.nodes top (.restart i) h
+    refine ⟨by intro x hx; simp [cluster2Step] at hx, ?_⟩
+    intro _
+    refine ⟨by simpa [cluster2Step] using hstep.2 (by simp [clusterStep]), ?_⟩
+    intro k sv hsv
+    simp only [cluster2Step] at hsv
+    obtain ⟨p1, p2, p3⟩ := hs k sv hsv
+    refine ⟨p1, ?_, p3⟩
+    intro a hca
+    simp only [cluster2Step, clusterStep] at hca ⊢
+    by_cases ha : a = i
+    · simp [ha, SimpleSeq.setLastId] at hca
+    · simp only [ha, if_false] at hca ⊢; exact p2 a hca
+  | snapshot i =>
+    refine ⟨by intro x hx; simp [cluster2Step] at hx, ?_⟩
+    intro _
+    refine ⟨by simpa [cluster2Step] using h, ?_⟩
+    obtain ⟨h1, h2, h3⟩ := h
+    intro k sv hsv
+    simp only [cluster2Step] at hsv
+    by_cases hk : k = i
+    · simp only [hk, if_true, Option.some.injEq] at hsv
+      subst hsv
+      simp only [Saved.replay, List.foldl_nil, cluster2Step]
+      refine ⟨by have := h1 i; simp only [SimpleSeq.endId]; omega, ?_, h3 i⟩
+      intro a hca
+      by_cases ha : a = i
+      · subst ha; exact Nat.le_refl _
+      · have := h2 a i ha hca
+        simp only [SimpleSeq.endId] at this ⊢; omega
+    · simp only [hk, if_false] at hsv
+      exact hs k sv hsv
+  | restartSaved i =>
+    refine ⟨by intro x hx; simp only [cluster2Step] at hx; split at hx <;> simp at hx, ?_⟩
+    intro _
+    cases hsi : c.saved i with
+    | none => simp only [cluster2Step, hsi]; exact ⟨h, hs⟩
+    | some sv =>
+      simp only [cluster2Step, hsi]
+      obtain ⟨p1, p2, p3⟩ := hs i sv hsi
+      have hr0 := replay_props sv
+      obtain ⟨h1, h2, h3⟩ := h
+      refine ⟨⟨?_, ?_, ?_⟩, ?_⟩
+      · intro j; by_cases hj : j = i
+        · simp only [hj, if_true]; exact p1
+        · simp only [hj, if_false]; exact h1 j
+      · intro a b hab hca
+        by_cases ha : a = i
+        · simp only [ha, if_true] at hca; omega
+        · simp only [ha, if_false] at hca ⊢
+          by_cases hb : b = i
+          · simp only [hb, if_true]; exact p2 a hca
+          · simp only [hb, if_false]; exact h2 a b hab hca
+      · intro j; by_cases hj : j = i
+        · simp only [hj, if_true]; omega
+        · simp only [hj, if_false]; exact h3 j
+      · intro k svk hsvk
+        obtain ⟨q1, q2, q3⟩ := hs k svk hsvk
+        refine ⟨q1, ?_, q3⟩
+        intro a hca
+        by_cases ha : a = i
+        · simp only [ha, if_true] at hca; omega
+        · simp only [ha, if_false] at hca ⊢; exact q2 a hca
+
+theorem cluster2_run_increasing : ∀ (ops : List COp2) (c : Cluster2) (top : Nat), CInv c.nodes top → SInv c top →
+    List.Pairwise (· < ·) (top :: (cluster2Run c ops).2) := by
+  intro ops
+  induction ops with
+  | nil => intro c top _ _; simp [cluster2Run]
+  | cons op rest ih =>
+    intro c top h hs
+    obtain ⟨hsome, hnone⟩ := cinv2_step c top op h hs
+    simp only [cluster2Run]
+    cases hv : (cluster2Step c op).2 with
+    | none =>
+      obtain ⟨hc', hs'⟩ := hnone hv
+      have := ih (cluster2Step c op).1 top hc' hs'
+      simpa using this
+    | some x =>
+      obtain ⟨hlt, hinv, hsinv⟩ := hsome x hv
+      have hrec := ih (cluster2Step c op).1 x hinv hsinv
+      rw [List.pairwise_cons] at hrec ⊢
+      obtain ⟨hx, hp⟩ := hrec
+      refine ⟨?_, by simp only; rw [List.pairwise_cons]; exact ⟨hx, hp⟩⟩
+      intro y hy
+      simp only [List.mem_cons] at hy
+      rcases hy with rfl | hy
+      · exact hlt
+      · exact Nat.lt_trans hlt (hx y hy)
+
+/-- **History ids are strictly increasing across publishes by changing leaders, compactions at arbitrary points, and
+restarts from the last snapshot plus replay of the log since** - for every batch size ≥ 1 and any number of nodes. -/
+theorem history_ids_increasing_with_snapshots (start batch : Nat) (hb : 1 ≤ batch) (ops : List COp2) :
+    List.Pairwise (· < ·) (cluster2Run ⟨fun _ => SimpleSeq.new start batch, fun _ => none⟩ ops).2 := by
+  have h := cluster2_run_increasing ops ⟨fun _ => SimpleSeq.new start batch, fun _ => none⟩ start
+    ⟨by intro i; simp [SimpleSeq.new], by intro i j _ hc; simp [SimpleSeq.new] at hc,
+     by intro i; simpa [SimpleSeq.new] using hb⟩
+    (by intro k sv hsv; simp at hsv)
+  exact (List.pairwise_cons.mp h).2
+
+/-- the statement is about something: a compaction in the middle of a block, two more ids, a restart from that
+snapshot, one more id -/
+example : (cluster2Run ⟨fun _ => SimpleSeq.new 0 100, fun _ => none⟩
+    [.issue 0, .issue 0, .snapshot 0, .issue 0, .issue 0, .restartSaved 0, .issue 0]).2 = [1, 2, 3, 4, 101] := by
+  decide
+
+end RNacos.Props.C19
